@@ -255,3 +255,24 @@ PROPS["C06"] = dict(
     assumptions=["MuHash Add/Remove form an abelian group action with negligible collisions (crypto/multiset is not modelled beyond that)",
                  "a block's undo records (created keys, spent, trimmed, created/deleted lockups) list what Process fed to Finalize"],
 )
+
+PROPS["C07"] = dict(
+    lean_modules=["QuaiVerif.Props.C07"],
+    areas=[dict(name="c07", n_quick=4, n_thorough=40, seeds_thorough=3, n_search=12, timeout=3000)],
+    facts=["validate_state_compares", "validate_body_compares", "process_compares"],
+    rule="a case is one 36-block history of the real zone node (see C06) in which every block is assembled by the node's own worker from its tx pool and "
+         "inbound ETX queue (30% of cases in the pre-TimeToStartTx regime with ETX backlogs of 40-160 per region block) and must be accepted by the same node; "
+         "before 35% of the blocks up to 3 mutants are offered first: one declared result changed (EVM/UTXO/ETX-set root, receipt hash, gas used, state "
+         "used, state size, avg/total fees, uncled entropy, outbound ETX hash, tx hash) or one body component changed (tx dropped / duplicated / swapped / "
+         "added / value altered, outbound ETX altered / dropped) with body roots recomputed, header hash updated and the block re-sealed with real work; "
+         "15% of blocks are appended as a neutral re-sealing (other nonce). After each rejection the whole database is diffed against its image before",
+    level_text="'own block validates', 'wrong declared result or altered body is rejected', 'accept iff re-execution yields exactly the declared results' and "
+               "'a rejected block leaves the state unchanged' are Lean theorems for every execution function (the worker and the validator are modelled as "
+               "running the same one); T1 regenerates the table of header fields compared in ValidateBody / ValidateState / Process and a theorem checks it "
+               "covers every declared result; the claim that both sides really run the same execution is what area c07 tests on real blocks and mutants.",
+    level_note="PARTIAL: that worker (core/worker.go) and validator (core/state_processor.go) implement the same execution function is established by "
+               "differential testing of whole blocks, not by proof - the two are separate 3000-line implementations; the per-transaction rules they share are "
+               "proved in C01/C05/C13. 'No trace' is checked on every key space except block storage (header, body, termini, manifest, inbound-ETX record "
+               "of the rejected hash), which the node keeps for any block it has seen.",
+    assumptions=["the execution function is deterministic (C06)", "mutants are re-sealed by the harness: sealing (C08) is not in question here"],
+)
